@@ -4,7 +4,7 @@ import sym
 import writer_tab as wt
 import c01, c03, c12, consume
 
-CONFIGS_QUICK = ["F_all"]
+CONFIGS_QUICK = ["F_all", "F_def"]  # every configuration whose cfg-gated code the property depends on
 CONFIGS_THOROUGH = ["F_all", "F_def"]
 TECHNIQUE = 'static analysis: writer/reader delimiter tables against one reference, consumed=advanced path summaries, who-may-write rule for the offset'
 EXPLANATION = (
